@@ -568,6 +568,31 @@ def main():
             if bad:
                 v["kind"] = "oracle"
                 v["detail"] = ("derived schema / round trip of the generated types: " + " ".join(sorted(set(bad))) + " | " + v["detail"])
+        elif v["case"].startswith("ocfr cap "):
+            # C04 on the implementation's own outcome: a reader whose source never hands out more
+            # than `cap` bytes at a time cannot have had a longer field buffered, so every field
+            # longer than the caller's allocation cap must have been refused by it
+            ct = v["case"].split()
+            backs = []
+            try:
+                j = ct.index("reader")
+                while j < len(ct) and ct[j] == "reader":
+                    last, n = int(ct[j + 1]), int(ct[j + 2])
+                    sched = [int(x) for x in ct[j + 3:j + 3 + n]]
+                    backs.append((max([last] + sched), int(ct[j + 3 + n])))
+                    j += 4 + n
+            except (ValueError, IndexError):
+                backs = []
+            for (maxchunk, cap), r in zip(backs, v["rust"].split(" ; ")):
+                t = r.split()
+                if maxchunk > cap or t[:1] == ["init-err"]:
+                    continue
+                big = [x for k, x in enumerate(t[1:], 1) if t[k - 1] in ("str", "bytes") and x.startswith("x") and (len(x) - 1) // 2 > cap]
+                if big:
+                    v["kind"] = "oracle"
+                    v["detail"] = (f"a field of {(len(big[0]) - 1) // 2} bytes was accepted from a reader whose allocation cap is {cap} "
+                                   f"and whose source never buffers more than {maxchunk} bytes | " + v["detail"])
+                    break
         elif v["case"].startswith("ocfr ") and " ; " in v["rust"]:
             # C17 on the implementation's outcome, per back-end: the yields end with end of stream;
             # an I/O error is followed by nothing but end of stream; where the model (whose outcome
